@@ -135,10 +135,69 @@ fn c08_worker(ctx: &WorkerCtx) -> Result<(), Fail> {
         st.eval(2);
     }
     st.class_n("generated full occupancies", n * 2);
+    // the generator's own output (bishop table in both tiers, rook table in the thorough tier:
+    // its magic search takes about a minute)
+    if ctx.idx == 0 {
+        for rook in [false, true] {
+            if rook && ctx.tier != Tier::Thorough && std::env::var("VERIF_C08_ROOK_GEN").is_err() {
+                continue;
+            }
+            let t0 = std::time::Instant::now();
+            let k = c08_generated_table(rook).map_err(|d| fail(json!({"generated_table": if rook { "rook" } else { "bishop" }}), d))?;
+            st.eval(k);
+            st.class_n(if rook { "lookups through a freshly generated rook table" } else { "lookups through a freshly generated bishop table" }, k);
+            eprintln!("generated {} table checked in {:?}", if rook { "rook" } else { "bishop" }, t0.elapsed());
+        }
+    }
     Ok(())
 }
 
+/// The table generator is an anchor of the property: whatever table it produces (its magic
+/// factors are found by random search, so every run gives another one) must answer every
+/// (square, ray-subset) lookup like the ray caster, through the index computation the lookup
+/// crate uses, and every index must lie inside the generated data.
+fn c08_generated_table(rook: bool) -> Result<u64, String> {
+    let t = with_stderr_silenced(|| guarded(|| if rook { chess_lookup_generator::rook_moves() } else { chess_lookup_generator::bishop_moves() }));
+    let t = t.map_err(|p| format!("C08 table generator ({}) panics: {p}", if rook { "rook" } else { "bishop" }))?;
+    let kind = if rook { "rook" } else { "bishop" };
+    if t.entries.len() != 64 {
+        return Err(format!("C08 generated {kind} table has {} entries", t.entries.len()));
+    }
+    let mut n = 0u64;
+    let mut noise = Expand(0x0808);
+    for s in 0..64u8 {
+        let e = &t.entries[s as usize];
+        let dirs = if rook { &ROOK_DIRS } else { &BISHOP_DIRS };
+        let rays = raycast(s, 0, dirs);
+        let mut sub = 0u64;
+        loop {
+            let off = noise.next() & !rays;
+            for occ in [sub, sub | (1u64 << s), sub | off] {
+                let blockers = e.mask.to_u64() & occ;
+                let index = (blockers.wrapping_mul(e.factor) >> e.shift).wrapping_add(e.offset as u64) as usize;
+                if index >= t.data.len() {
+                    return Err(format!("C08 freshly generated {kind} table: index {index} for {} with occupancy {occ:#018x} is outside the generated data ({} slots)", refchess::sq_name(s), t.data.len()));
+                }
+                let got = t.data[index].to_u64();
+                let want = raycast(s, occ, dirs);
+                if got != want {
+                    return Err(format!("C08 freshly generated {kind} table answers {got:#018x} for {} with occupancy {occ:#018x}, ray casting gives {want:#018x} (a regenerated lookup table would be wrong)", refchess::sq_name(s)));
+                }
+                n += 1;
+            }
+            sub = sub.wrapping_sub(rays) & rays;
+            if sub == 0 {
+                break;
+            }
+        }
+    }
+    Ok(n)
+}
+
 fn c08_replay(v: &Value) -> Result<(), String> {
+    if let Some(k) = v.get("generated_table").and_then(|x| x.as_str()) {
+        return c08_generated_table(k == "rook").map(|_| ());
+    }
     let rook = v["slider"].as_str() == Some("rook");
     let s = v["sq"].as_u64().ok_or("sq")? as u8;
     let occ = u64::from_str_radix(v["occ"].as_str().ok_or("occ")?.trim_start_matches("0x"), 16).map_err(|e| e.to_string())?;
@@ -149,7 +208,7 @@ pub const C08: CheckDef = CheckDef {
     id: "C08",
     worker: c08_worker,
     replay: c08_replay,
-    rule: "for each of 64 squares and both slider kinds, ALL subsets of the square's own ray squares (carry-rippler; 2^k subsets, k <= 14 rook / 13 bishop; 1,119,744 (square,kind,subset) triples), each evaluated bare, with the square itself occupied and with generated off-ray noise, against a coordinate-stepping ray caster; plus generated full 64-bit occupancies of varying density. Non-trivial = subset with >= 1 blocker on the rays; distinct by (square, kind, subset). exhaustive refers to the ray-subset space; independence from off-ray squares is sampled.",
+    rule: "for each of 64 squares and both slider kinds, ALL subsets of the square's own ray squares (carry-rippler; 2^k subsets, k <= 14 rook / 13 bishop; 1,119,744 (square,kind,subset) triples), each evaluated bare, with the square itself occupied and with generated off-ray noise, against a coordinate-stepping ray caster; plus generated full 64-bit occupancies of varying density. Non-trivial = subset with >= 1 blocker on the rays; distinct by (square, kind, subset). exhaustive refers to the ray-subset space; independence from off-ray squares is sampled. Generator stage: the table generator is run (bishop table in both tiers, rook table in thorough) and the same enumeration is repeated through the freshly generated masks, factors, shifts, offsets and data, with the index bound checked.",
     assumptions: &["oracle: coordinate-stepping ray caster in the harness (no tables)", "'index in range' is decided by re-running the enumeration in the checked profile (debug_assert + checked indexing trap there); in release an out-of-range index is observable only as a wrong answer, a crash or nothing"],
     exhaustive: |_| true,
     uses_reference: false,
